@@ -97,6 +97,7 @@ PROP = dict(
     prop_targets=["Properties/C11.vo"],
     cases=dict(quick=1200, thorough=9000),
     level="proof",
+    coqc_timeout=3000,   # a shard takes ~15 s of CPU; the margin is for a heavily shared machine
     release_too=True,   # thorough: half as many cases again against a release build (no overflow checks / debug assertions)
     rule="cases = stream x point family x weight family: streams main (positive integer-valued weights, 1 <= part_count <= n), "
          "zero weights / one heavy element (the inputs that panicked before 28ccbdd), tiny weights z*2^-70 (the inputs that broke the balance bound before 70b7d46), subnormal weights z*2^-1074 with 10..45-bit z (1e-320..1e-310), alone or next to 1-3 normal weights (a first-level slab then has a subnormal total), part_count > n, max_iter = 0 and "
